@@ -622,6 +622,12 @@ def campaign(tier="quick", seed=0, procs=None):
     out = {"tier": tier, "seed": seed, "wall": round(time.time() - t0, 1), "records": recs}
     os.makedirs(os.path.dirname(cpath), exist_ok=True)
     json.dump(out, open(cpath, "w"), default=str)
+    try:
+        ents = sorted((os.path.join(os.path.dirname(cpath), x) for x in os.listdir(os.path.dirname(cpath))), key=os.path.getmtime, reverse=True)
+        for old in ents[24:]:
+            os.unlink(old)
+    except OSError:
+        pass
     return out
 
 
